@@ -439,9 +439,20 @@ func runC06(c *Ctx) {
 			}
 			okF := badF != nil && rewF != nil && coll != nil && coll.Op == "call" && len(coll.Args) > 0 && coll.Args[0].Op == "call" && len(coll.Args[0].Args) > 0 && coll.Args[0].Args[0] == ps[0] &&
 				((coll.Aux == calleeName(rewF) && coll.Args[0].Aux == calleeName(badF)) || (coll.Aux == calleeName(badF) && coll.Args[0].Aux == calleeName(rewF)))
-			c.Check(okF, "C06.R1", "GetDNSBasicRule: loop ranges over filtered rules", site.Pos(), "collection = rewriteFilter(badfilterFilter(rules))",
-				"the loop ranges over "+clip(u.Show(coll), 160)+", not over the filtered rules")
 			cand, inc := call.Args[0], call.Args[1]
+			// the rewrite filter may be fused into the scan: the loop ranges over the badfilter-filtered
+			// rules and looks only at candidates without a rewrite (judged below, once the decisions of
+			// the body are known)
+			var noRew Ref = False
+			fused := !okF && badF != nil && coll != nil && coll.Op == "call" && coll.Aux == calleeName(badF) && len(coll.Args) > 0 && coll.Args[0] == ps[0]
+			if fused {
+				noRew = u.ToBool(u.Eq(u.Field(cand, "DNSRewrite", nil), u.mk("nil", "", nil)))
+				fused = noRew != False && noRew != True
+			}
+			if !fused {
+				c.Check(okF, "C06.R1", "GetDNSBasicRule: loop ranges over filtered rules", site.Pos(), "collection = rewriteFilter(badfilterFilter(rules))",
+					"the loop ranges over "+clip(u.Show(coll), 160)+", not over the filtered rules")
+			}
 			// loop-carried incumbent
 			type latchVal struct {
 				v  *E
@@ -522,6 +533,15 @@ func runC06(c *Ctx) {
 			}
 			bad, bad2 := "", retOther
 			n := 0
+			if fused {
+				okFused := u.bdd.Implies(chosen, noRew) && u.bdd.Implies(retNil, noRew)
+				c.Check(okFused, "C06.R1", "GetDNSBasicRule: loop ranges over filtered rules", site.Pos(), "collection = badfilterFilter(rules), candidates with a rewrite skipped before any decision",
+					"the loop ranges over "+clip(u.Show(coll), 160)+" and a rule that carries a DNS rewrite can be selected or end the scan: rewrite rules never become the basic result")
+			}
+			var noRewAtoms []*E
+			if fused {
+				noRewAtoms = u.AtomsOf(noRew)
+			}
 			for mask := 0; mask < 16; mask++ {
 				for old := 0; old < 2; old++ {
 					for hp := 0; hp < 2; hp++ {
@@ -532,6 +552,9 @@ func runC06(c *Ctx) {
 							}
 						}
 						sub := optMaskAtomSub(u, cand, bits)
+						for _, at := range noRewAtoms {
+							sub[at.key] = u.Bool(boolRef(u.bdd.Implies(noRew, u.Atom(at)))) // the candidate passed the fused rewrite filter
+						}
 						if old == 0 {
 							sub[inc.key] = nilOf(u, inc)
 						} else {
